@@ -7,85 +7,6 @@ open Bytes Parser Grammar
 
 namespace RT
 
-/-- a capability on the wire is an atom; its value is the classification of the complete atom -/
-inductive EncCap : Capability → Bytes → Prop
-  | mk (a : Bytes) : a ≠ [] → (∀ c ∈ a, isAtomChar c = true) → validUtf8 a = true →
-      EncCap (classifyCapability a) a
-
-theorem capability_enc (v : Capability) (e : Bytes) (h : EncCap v e) : Parses capability e v (Starts notAtomChar) := by
-  cases h with
-  | mk _ hne hall hu =>
-    unfold capability
-    exact Parses.map _ (atom_enc e hne hall hu)
-
-def spCap : Parser Capability := do char 32; capability
-
-/-- what may follow the capability list: CR, `]`, or a space not followed by an atom character -/
-def EndOfCaps (r : Bytes) : Prop :=
-  (∃ c t, r = c :: t ∧ (c = 13 ∨ c = 93)) ∨ (∃ x t, r = 32 :: x :: t ∧ isAtomChar x = false)
-
-theorem spCap_stop (r : Bytes) (h : EndOfCaps r) : spCap r = .err := by
-  unfold spCap
-  show Parser.bindP (char 32) _ _ = .err
-  unfold Parser.bindP
-  rcases h with ⟨c, t, rfl, hc⟩ | ⟨x, t, rfl, hx⟩
-  · have : (c == 32) = false := by rcases hc with rfl | rfl <;> decide
-    simp [char, this]
-  · simp [char, capability, Parser.map, atom, Parser.mapRes, takeWhile1_err isAtomChar x t hx]
-
-theorem caps_many0 (items : List (Bytes × Capability)) (hall : ∀ x ∈ items, EncCap x.2 x.1) :
-    Parses (many0 spCap) (items.map fun x => b!" " ++ x.1).flatten (items.map (·.2)) EndOfCaps := by
-  have key := Parses.many0 (p := spCap) (Starts notAtomChar) EndOfCaps
-    (items.map fun x => (b!" " ++ x.1, x.2)) ?_ ?_ ?_ ?_ ?_
-  · simpa [List.map_map, Function.comp_def] using key
-  · intro y hy
-    simp only [List.mem_map] at hy
-    obtain ⟨x, hx, rfl⟩ := hy
-    unfold spCap
-    exact Parses.bind (char_ok 32) (capability_enc x.2 x.1 (hall x hx)) (fun _ _ => trivial)
-  · intro y hy
-    simp only [List.mem_map] at hy
-    obtain ⟨x, hx, rfl⟩ := hy
-    simp
-  · intro y hy r
-    simp only [List.mem_map] at hy
-    obtain ⟨x, hx, rfl⟩ := hy
-    exact ⟨32, x.1 ++ r, by simp, by decide⟩
-  · intro r hr
-    rcases hr with ⟨c, t, rfl, hc⟩ | ⟨x, t, rfl, _⟩
-    · exact ⟨c, t, rfl, by rcases hc with rfl | rfl <;> decide⟩
-    · exact ⟨32, x :: t, rfl, by decide⟩
-  · intro r hr
-    exact spCap_stop r hr
-
-/-- `CAPABILITY SP atom ...`; the list must name IMAP4rev1 -/
-inductive EncCaps : List Capability → Bytes → Prop
-  | mk (m : List Bool) (items : List (Bytes × Capability)) :
-      (∀ x ∈ items, EncCap x.2 x.1) → (items.map (·.2)).contains Capability.imap4rev1 = true →
-      EncCaps (items.map (·.2)) (spell (b!"CAPABILITY") m ++ (items.map fun x => b!" " ++ x.1).flatten)
-
-theorem capabilityData_enc (v : List Capability) (e : Bytes) (h : EncCaps v e) :
-    Parses capabilityData e v EndOfCaps := by
-  cases h with
-  | mk m items hall hc =>
-    unfold capabilityData
-    refine Parses.mapRes _ _ (v := items.map (·.2)) ?_ (by unfold ensureCapabilitiesContainsImap4rev; rw [if_pos hc])
-    exact Parses.bind (tagNoCase_spell _ m) (caps_many0 items hall) (fun _ _ => trivial)
-
-/-- as a response code: `[CAPABILITY ...]` -/
-theorem respTextCodeAlt_caps (v : List Capability) (e : Bytes) (h : EncCaps v e) :
-    Parses respTextCodeAlt e (.capabilities v) (Starts closeBracket) := by
-  have hp := capabilityData_enc v e h
-  cases h with
-  | mk m items hall hc =>
-    unfold respTextCodeAlt
-    refine Parses.altR (Parses.altR (Parses.altL (Parses.map _ (hp.weaken ?_))) ?_) ?_
-    · intro r ⟨c, t, hr, hcb⟩
-      have : c = 93 := by simpa [closeBracket] using hcb
-      exact Or.inl ⟨c, t, hr, Or.inr this⟩
-    · skip_code
-    · skip_code
-
 /-- none of the keyword-introduced mailbox data can start this keyword -/
 def notMailboxKw (u : Bytes) : Bool :=
   mismatch (b!"FLAGS ") u && mismatch (b!"LIST ") u && mismatch (b!"LSUB ") u && mismatch (b!"STATUS ") u &&
